@@ -1,13 +1,76 @@
 import Hms
+import Hms.Print.Expr
+import Hms.Print.Str
+import Hms.Print.Optimize
 import Driver.Decode
-/-! Driver commands of the "Print" area. `dispatchPrint cmd payload` answers `some line` for the
-commands it owns and `none` otherwise. -/
+/-! Driver commands of the "Print" area (C19, C20). `dispatchPrint cmd payload` answers `some line`
+for the commands it owns and `none` otherwise.
+
+* `printexpr <kind codes>` → `OK flat=<kind codes> reparse=same|diff tree=<render>` | `ERR <class>`:
+  parse the tokens with the Pratt model, print the tree with `Print.printTree`, parse the printed
+  tokens again (tie: the tokens of the Go `String()` output must be `flat`).
+* `strlit (<code points>)` → `P=(<code points of quote (escape s)>) | R=<n>:<kind>:(<value>)`:
+  the model of the string literal printers and what the lexer model reads back.
+* `optprefix ((<n> (<i> …)) …)` → `OK <k> …`: for every function body with `n` statements of which
+  those at the listed indices have recorded type `never`, the number of statements the optimizer
+  model keeps.
+-/
 namespace Driver
 open Hms
 
+def codesOf (ks : List TokKind) : String := " ".intercalate (ks.map fun k => toString k.code)
+
+def cmdPrintExpr (payload : String) : String :=
+  let codes := (payload.splitOn " ").filter (· ≠ "")
+  match codes.mapM (fun s => s.toNat? >>= TokKind.ofCode?) with
+  | none => "BAD-INPUT"
+  | some ks =>
+    match Pratt.parseExpr Gen.prec ks with
+    | .ok (t, []) =>
+      let flat := Print.printTree t
+      let again := match Print.reparse Gen.prec t with
+        | .ok (t', []) => if t'.render == t.render then "same" else "diff"
+        | _ => "diff"
+      s!"OK flat={codesOf flat} reparse={again} tree={t.render}"
+    | .ok (_, _ :: _) => "ERR trailing"
+    | .error .syntax => "ERR syntax"
+    | .error .unsupported => "ERR unsupported"
+    | .error .fuel => "ERR fuel"
+
+def runesS (cs : List Char) : String := "(" ++ " ".intercalate (cs.map fun c => toString c.toNat) ++ ")"
+
+def cmdStrLit (payload : String) : String :=
+  match Sexp.parse payload >>= Sexp.asRunes? with
+  | none => "BAD-INPUT"
+  | some s =>
+    let q := Print.quote s
+    let r := Lex.lexAll q
+    let back := match r.err, r.tokens with
+      | some _, _ => "ERR"
+      | none, [] => "0:-1:()"
+      | none, t :: rest => s!"{rest.length + 1}:{t.kind.code}:{runesS t.value}"
+    s!"P={runesS q} | R={back}"
+
+def cmdOptPrefix (payload : String) : String :=
+  match Sexp.parse payload with
+  | some (.list rows) =>
+    let one (row : Sexp) : Option Nat :=
+      match row with
+      | .list [n, .list idx] => do
+        let n ← n.asNat?
+        let idx ← idx.mapM Sexp.asNat?
+        pure (Print.keptCount ((List.range n).map fun i => idx.contains i))
+      | _ => none
+    match rows.mapM one with
+    | some ks => "OK " ++ " ".intercalate (ks.map toString)
+    | none => "BAD-INPUT"
+  | _ => "BAD-INPUT"
+
 def dispatchPrint (cmd : String) (payload : String) : Option String :=
-  let _ := payload
   match cmd with
+  | "printexpr" => some (cmdPrintExpr payload)
+  | "strlit" => some (cmdStrLit payload)
+  | "optprefix" => some (cmdOptPrefix payload)
   | _ => none
 
 end Driver
